@@ -22,7 +22,7 @@ THEOREMS = [
     # the front end (Gen/AlgoPopFront.lean): Population.__init__ / __getitem__ (int, slice) / __len__, NestTrees over the lazy container
     "RefinePopFront.pop_len_refines", "RefinePopFront.pop_getitem_int_refines", "RefinePopFront.pop_init_refines", "RefinePopFront.nestl_getitem_refines",
     "RefinePopFront.pop_getitem_slice_refines", "C19.generated_pop_getitem", "C19.frontStep_inv", "C19.generated_front_load_at_most_once",
-    "C19.generated_pop_slice_partial", "C19.generated_to_population",
+    "C19.slice_indices_eq_spec", "C19.generated_pop_slice", "C19.generated_to_population",
 ]
 TRUSTED = ["hand-written models Model/Population.lean of _get_idx / LazyLoadingTrees / ChainTrees / NestTrees / Population construction "
            "(tied by the c19.lazy and c19.chain correspondence: returned file and read log compared exactly for every operation script)"]
